@@ -67,4 +67,8 @@ VARIANTS += [
     dict(name='count-before-output-step (seed C07_d)', expect='fire', key='MPT-gate|count-last', edits=[
         dict(file=CLI, old="    leftover_warnings = ignore_warnings_and_count(COUNTER, args.maxwarn)\n", new=""),
         dict(file=CLI, old="    # Write a PDB file.\n", new="    leftover_warnings = ignore_warnings_and_count(COUNTER, args.maxwarn)\n    # Write a PDB file.\n")]),
+    dict(name='benign link messages added without the intermediate name', expect='silent', edits=[
+        dict(file='vermouth/processors/do_links.py', old="                        fmt_args = fmt_args + [match]\n                        molecule.log_entries[loglevel][entry] += fmt_args", new="                        molecule.log_entries[loglevel][entry] += fmt_args + [match]")]),
+    dict(name='modification messages registered without the application map', expect='fire', key='PROV-model-messages|vermouth/processors/do_mapping.py|apply_mod_mapping|own-map', edits=[
+        dict(file='vermouth/processors/do_mapping.py', old="            graph_out.log_entries[loglevel][entry] += [mod_atom_name_to_out]", new="            graph_out.log_entries[loglevel][entry] += []")]),
 ]
